@@ -49,65 +49,12 @@ ASSUMPTIONS = [
     'per scenario',
 ]
 
-PART_KINDS = ('pstr', 'pint', 'pbool', 'pnum')
-COL_KINDS = ('i64', 'i32', 'f64', 'str', 'obj', 'bool', 'dt', 'cat', 'u8')
 
 
 # ------------------------------------------------------------------ generate
 
-def gen_shape(rng, max_parts=2, col_kinds=COL_KINDS, part_kinds=PART_KINDS):
-    nparts = rng.choice((0, 0, 1, 1, 2)) if max_parts >= 2 else \
-        rng.randrange(0, max_parts + 1)
-    parts = {}
-    for i in range(nparts):
-        kind = rng.choice(part_kinds)
-        pool = list(F.PART_POOLS[kind])
-        rng.shuffle(pool)
-        top = 3 if nparts == 1 else 2
-        parts['p%d' % i] = [kind, pool[:rng.randrange(1, min(top, len(pool)) + 1)]]
-    cols = F.gen_col_specs(rng, rng.randrange(1, 5), kinds=col_kinds)
-    return {'parts': parts, 'cols': cols}
-
-
-def gen_frame_spec(rng, shape, batch, max_rows=40, min_rows=1, permute=True):
-    cols = [['uid', 'uid', 'none', 0, None]]
-    for name, kind, nullmode, _, extra in shape['cols']:
-        cols.append([name, kind, nullmode, rng.randrange(2 ** 31), extra])
-    part = {n: [k, ch, rng.randrange(2 ** 31)]
-            for n, (k, ch) in shape['parts'].items()}
-    order = [c[0] for c in cols] + list(part)
-    if permute and rng.random() < 0.5:
-        rng.shuffle(order)
-    return {'batch': batch, 'nrows': rng.randrange(min_rows, max_rows + 1),
-            'cols': cols, 'part': part, 'order': order}
-
-
-def gen_wopts(rng, nrows, has_cat, v2, allow_list=True, max_rg=4):
-    """Write options; at most ``max_rg`` row groups so that the number of
-    part files (and so of fault points) stays bounded."""
-    nrg = rng.choice((1, 1, 2, 3, max_rg))
-    r = rng.random()
-    if nrg == 1 and r < 0.5:
-        rgo = None
-    elif nrows >= 3 and allow_list and r < 0.35:
-        n = min(nrg - 1, nrows - 1)
-        rgo = [0] + (sorted(rng.sample(range(1, nrows), n)) if n > 0 else [])
-    else:
-        rgo = max(1, -(-nrows // nrg))
-    while True:
-        codec = rng.choice(F.CODECS)
-        if F.codec_ok(codec, v2, has_cat):
-            break
-    stats = rng.choice(('auto', True, False, 'auto'))
-    return {'rgo': rgo, 'codec': codec, 'stats': stats}
-
-
-def gen_has_nulls(rng, shape):
-    # has_nulls='infer' marks pandas-3 `str` columns REQUIRED and then refuses
-    # their nulls: a refusal of valid input (C01/C18 matter), keep it out
-    infer_ok = not any(c[1] == 'str' and c[2] != 'none'
-                       for c in shape['cols'])
-    return rng.choice((True, 'infer', True) if infer_ok else (True, True))
+from sim.gen import (gen_shape, gen_frame_spec, gen_wopts,  # noqa: E402
+                     gen_has_nulls)
 
 
 def generate(seed, idx, tier):
@@ -119,7 +66,7 @@ def generate(seed, idx, tier):
     ops = []
     fs0 = gen_frame_spec(rng, shape, batch, permute=False)
     op = {'op': 'write', 'frame': fs0}
-    op.update(gen_wopts(rng, fs0['nrows'], has_cat, knobs['v2']))
+    op.update(gen_wopts(rng, fs0['nrows'], has_cat, knobs))
     op['has_nulls'] = gen_has_nulls(rng, shape)
     ops.append(op)
     for _ in range(rng.choice((0, 0, 1, 1, 2, 3))):
@@ -129,7 +76,7 @@ def generate(seed, idx, tier):
             f = gen_frame_spec(rng, shape, batch)
             o = {'op': 'append', 'frame': f,
                  'entry': rng.choice(('write', 'wrg'))}
-            o.update(gen_wopts(rng, f['nrows'], has_cat, knobs['v2']))
+            o.update(gen_wopts(rng, f['nrows'], has_cat, knobs))
         elif r < 0.7:
             o = {'op': 'remove', 'sel': [rng.random() for _ in range(3)],
                  'frac': rng.choice((0.2, 0.5))}
@@ -137,12 +84,12 @@ def generate(seed, idx, tier):
             f = gen_frame_spec(rng, shape, batch)
             o = {'op': 'failed_append', 'frame': f, 'at': rng.random(),
                  'entry': rng.choice(('write', 'wrg'))}
-            o.update(gen_wopts(rng, f['nrows'], has_cat, knobs['v2']))
+            o.update(gen_wopts(rng, f['nrows'], has_cat, knobs))
         ops.append(o)
     batch += 1
     f = gen_frame_spec(rng, shape, batch)
     app = {'op': 'append', 'frame': f, 'entry': rng.choice(('write', 'wrg'))}
-    app.update(gen_wopts(rng, f['nrows'], has_cat, knobs['v2']))
+    app.update(gen_wopts(rng, f['nrows'], has_cat, knobs))
     quick = tier == 'quick'
     return {
         'prop': PROP, 'seed': seed, 'idx': idx, 'tier': tier,
